@@ -32,6 +32,26 @@ BREAKING = [
                                                  "    if imm < -0x800 or imm > 0xfff:\n        raise ValueError('12-bit immediate must be between -0x800 (-2048) and 0x7ff (2047): {}'.format(imm))\n\n    imm = c_uint32(imm).value & 0b111111111111\n\n    code = 0\n    code |= opcode\n    code |= rd << 7", 0)]),
     ('c01-table-wrong-binding', ['C01'], [(A, "    'sra':        SRA,", "    'sra':        SRL,")]),
     ('c01-amo-kw-swap', ['C01'], [(A, "code = encode_func(*args, aq=aq, rl=rl)", "code = encode_func(*args, aq=rl, rl=aq)")]),
+    # ---- C02 / C06 --------------------------------------------------------------------------------------------
+    ('c02-cj-scatter', ['C02'], [(A, "    code |= imm_10 << 8\n    code |= imm_9_8 << 9", "    code |= imm_10 << 9\n    code |= imm_9_8 << 7")]),
+    ('c02-drop-constraint', ['C02', 'C06'], [(A, "C_LUI      = partial(ciu_type, opcode=0b01, funct3=0b011, cs=[RegRdRs1NotZero, RegRdRs1NotTwo, ImmNotZero])", "C_LUI      = partial(ciu_type, opcode=0b01, funct3=0b011, cs=[RegRdRs1NotZero, ImmNotZero])")]),
+    ('c02-creg-offbyone', ['C02', 'C06'], [(A, "        if reg < 8 or reg > 15:", "        if reg < 8 or reg > 16:")]),
+    ('c02-creg-no-sub', ['C02'], [(A, "        reg -= 8\n", "        pass\n")]),
+    ('c02-cbeqz-unguarded', ['C02', 'C06', 'C04'], [(A, "    if imm < -256 or imm > 255:\n        raise ValueError('8-bit MO2 immediate must be between -0x100 (-256) and 0xff (255): {}'.format(imm))\n    if imm % 2 != 0:\n        raise ValueError('8-bit MO2 immediate must be a multiple of 2: {}'.format(imm))\n", "")]),
+    ('c02-shamt-bit5', ['C02', 'C06'], [(A, "cs=[ImmNotZero, ShamtBit5Zero])", "cs=[ImmNotZero])", 0)]),
+    ('c02-cswsp-funct3', ['C02'], [(A, "C_SWSP     = partial(css_type, opcode=0b10, funct3=0b110)", "C_SWSP     = partial(css_type, opcode=0b10, funct3=0b111)")]),
+    ('c02-caddi4spn-lo', ['C02', 'C06'], [(A, "    if imm < 0 or imm > 1023:\n       raise", "    if imm < 0 or imm > 1027:\n       raise")]),
+    ('c02-pack-h', ['C02'], [(A, "            fmt = '<H'", "            fmt = '<h'")]),
+    ('c02-cl-parse-paren', ['C02', 'C13'], [(A, "            name, rd, offset, _, rs1, _ = tokens\n            imm = [offset]\n        else:\n            name, rd, rs1, *imm = tokens\n        name = name.lower()\n        imm = parse_immediate(imm, line)\n        return CLTypeInstruction",
+                                              "            name, rs1, offset, _, rd, _ = tokens\n            imm = [offset]\n        else:\n            name, rd, rs1, *imm = tokens\n        name = name.lower()\n        imm = parse_immediate(imm, line)\n        return CLTypeInstruction")]),
+    ('c06-btype-bound-tight', ['C06'], [(A, "    if imm < -0x1000 or imm > 0x0fff:", "    if imm < -0x1000 or imm >= 0x0ffe:")]),
+    ('c06-guard-and', ['C06', 'C01'], [(A, "    if imm < -0x100000 or imm > 0x0fffff:", "    if imm < -0x100000 and imm > 0x0fffff:")]),
+    ('c06-utype-window', ['C06'], [(A, "    if imm >= 0x80000 and imm <= 0xfffff:", "    if imm >= 0x80000 and imm <= 0x1fffff:")]),
+    ('c06-guard-after-mask', ['C06', 'C01'], [(A, "    if imm < -0x800 or imm > 0x7ff:\n        raise ValueError('12-bit immediate must be between -0x800 (-2048) and 0x7ff (2047): {}'.format(imm))\n\n    imm = c_uint32(imm).value & 0b111111111111\n\n    imm_11_5",
+                                                "    imm = c_uint32(imm).value & 0b111111111111\n\n    if imm < -0x800 or imm > 0x7ff:\n        raise ValueError('12-bit immediate must be between -0x800 (-2048) and 0x7ff (2047): {}'.format(imm))\n\n    imm_11_5")]),
+    ('c06-fence-range', ['C06'], [(A, "    if pred < 0b0000 or pred > 0b1111:", "    if pred < 0b0000 or pred > 0b11111:")]),
+    ('c06-ciu-window', ['C06', 'C02'], [(A, "    if imm >= 0xfffe0 and imm <= 0xfffff:", "    if imm >= 0xffff0 and imm <= 0xfffff:")]),
+    ('c06-cia-mult', ['C06', 'C02'], [(A, "    if imm % 16 != 0:", "    if imm % 8 != 0:")]),
 ]
 
 PRESERVING = [
